@@ -170,3 +170,24 @@ def find_if_test(relpath, func, mentions, cls=None):
                 ast.fix_missing_locations(expr)
                 return compile(expr, '<if-test of %s:%s>' % (relpath, func), 'eval'), u, n
     raise AnchorMissing('%s.%s: no if-test mentions %s' % (relpath, func, mentions))
+
+
+def names_by_role(relpath, func, role, cls=None):
+    """discover anchor names by the role they play instead of by spelling.
+    role 'interp-axes': the two names handed as the grid axes to RegularGridInterpolator((rows, cols), ...)
+    role 'section-rows': (lower, upper) names of the row slice of the first `.section[...]` subscript"""
+    f = get_function(relpath, func, cls)
+    if role == 'interp-axes':
+        for n in ast.walk(f):
+            if isinstance(n, ast.Call) and (getattr(n.func, 'id', None) == 'RegularGridInterpolator' or getattr(n.func, 'attr', None) == 'RegularGridInterpolator'):
+                a = n.args[0] if n.args else None
+                if isinstance(a, ast.Tuple) and len(a.elts) == 2 and all(isinstance(e, ast.Name) for e in a.elts):
+                    return a.elts[0].id, a.elts[1].id
+    if role == 'section-rows':
+        for n in ast.walk(f):
+            if isinstance(n, ast.Subscript) and isinstance(n.value, ast.Attribute) and n.value.attr == 'section':
+                sl = n.slice.elts if isinstance(n.slice, ast.Tuple) else [n.slice]
+                for e in sl:
+                    if isinstance(e, ast.Slice) and isinstance(e.lower, ast.Name) and isinstance(e.upper, ast.Name):
+                        return e.lower.id, e.upper.id
+    return None
